@@ -88,7 +88,7 @@ pub fn build(tier: Tier) -> Check<'static> {
     c.assumptions = vec!["SV_COV_* constants are left aside; bodies and defaults are compared trimmed".into()];
     let or = Oracles { table: true, ..Default::default() };
     {
-        let sp = pp::cond_profile(tier == Tier::Quick, false);
+        let sp = pp::cond_profile(true, false); // the thorough C04 profile (65 M programs) is C04's business
         c.parts.push(Part::new("cond-profile-table", sp.len(), "conditional profile: returned table", move |i, acc| pp::check_prog(acc, &sp.get(i), or, "conditional profile")));
     }
     {
